@@ -153,7 +153,9 @@ def run(ctx):
     import importlib
     importlib.import_module("contracts.copyright")
     e = engine(ctx)
-    verify_all(ctx, e, FUNCTIONS)
+    from pyvc.driver import generic_replay
+    for q in FUNCTIONS:
+        ctx.verify(e, q, replay=generic_replay(q))
     lemmas(ctx, e, "C20")
     assumed_contracts(ctx, e, "C20")
     ctx.bounded.append(year_options())
